@@ -7,11 +7,21 @@ Ops:
   `tsutc S N`            – `Timestamp::try_from(DateTime::<Utc>::from_timestamp(S,N))`
   `tsfix S N OFF`        – the same instant `.with_timezone(&FixedOffset::east(OFF))`  (OFF seconds)
   `tspair K1 S1 N1 O1 K2 S2 N2 O2` – two conversions (`K ∈ sys|utc|fix`), observation `r1 & r2`
+  `tscal20 KIND Y M D h m s FRAC OFF` – a `DateTime` built from CALENDAR FIELDS on a wall clock OFF seconds east of UTC:
+                           KIND = ymd (`NaiveDate::from_ymd_opt(..).and_hms_nano_opt(..)` + `and_local_timezone(FixedOffset)`),
+                           rfc (an RFC 3339 text written out by the harness, `DateTime::parse_from_rfc3339`; second 60 for a leap
+                           reading), utc (`Utc.with_ymd_and_hms(..)` + `with_nanosecond`, OFF = 0). FRAC < 2·10⁹; from 10⁹ on a
+                           reading inside a leap second (only on second 59). The driver computes the seconds with `Calendar`.
+  `tsst20 ZONE S N`      – `DateTime::<Utc>::from(SystemTime)` (ZONE = utc) / `DateTime::<Local>::from(SystemTime)` (loc)
+  `tsloc20 TZ OFF S N`   – `Local` under the environment variable TZ = the POSIX zone text TZ (hex), in a fresh thread
+                           (chrono caches the zone per thread): `Local.timestamp_opt(S, N)`; OFF = the offset the zone must
+                           show at that instant (`-` = not stated): the harness answers `tzignored` when chrono shows another
+  `tsnow20`              – `Timestamp::now()` on the real clock, bracketed by two readings of `SystemTime::now()`: `in | out`
 Observations: `ok <n> | underflow | overflow | panic | unrepresentable` (the harness could not
 construct the value: outside `SystemTime` / chrono's range – `dontcare`).
 The verdict comes from `TimestampSpec` on the floor `S` alone, never from the model functions. -/
 namespace RpmVerif.Driver.C20
-open RpmVerif.Timestamp RpmVerif.TimestampSpec RpmVerif.Driver
+open RpmVerif.Timestamp RpmVerif.TimestampSpec RpmVerif.Driver RpmVerif.Calendar
 
 def mkInstant (s n : String) : Option Instant :=
   match s.toInt?, n.toNat? with
@@ -22,6 +32,9 @@ def mkSource (kind : String) (t : Instant) (off : String) : Option Source :=
   match kind, off.toInt? with
   | "sys", some _ => some (.sys t)
   | "utc", some _ => some (.chrono ⟨t, 0⟩)
+  | "stutc", some _ => some (.chrono ⟨t, 0⟩)
+  | "stloc", some _ => some (.chrono ⟨t, 0⟩)
+  | "loc", some o => some (.chrono ⟨t, o⟩)
   | "fix", some o => if -86400 < o ∧ o < 86400 then some (.chrono ⟨t, o⟩) else none
   | _, _ => none
 
@@ -61,8 +74,60 @@ def handleOne (kind : String) (s n off : String) (impl : String) : String :=
         else offClass kind (off.toInt?.getD 0) ++ ":" ++ region t.secs ++ ":" ++ subsec t.nanos
       answer (modelObs src impl) (judge t.secs impl) label
 
+/-- class of a POSIX TZ text: with a daylight-saving rule (`,M…`), a fixed offset with minutes, a fixed whole-hour offset -/
+def tzClass (tz : String) : String :=
+  if tz.contains ',' then "dst" else if tz.contains ':' then "odd" else "hour"
+
+/-- calendar request → (reading, offset) when the numbers are well-formed -/
+def mkCivil (a : List String) : Option (Civil × Int) :=
+  match a with
+  | [y, mo, d, h, mi, s, fr, off] =>
+    match y.toInt?, mo.toNat?, d.toNat?, h.toNat?, mi.toNat?, s.toNat?, fr.toNat?, off.toInt? with
+    | some y, some mo, some d, some h, some mi, some s, some fr, some off => some (⟨y, mo, d, h, mi, s, fr⟩, off)
+    | _, _, _, _, _, _, _, _ => none
+  | _ => none
+
+/-- inside this core chrono must be able to build the value: an `unrepresentable` there is a plumbing error -/
+def civilCore (kind : String) (c : Civil) (off : Int) : Bool :=
+  decide c.valid && decide (-86400 < off ∧ off < 86400) &&
+  (match kind with
+   | "ymd" => decide (-200000 ≤ c.year ∧ c.year ≤ 200000)
+   | "rfc" => decide (0 ≤ c.year ∧ c.year ≤ 9999) && off % 60 == 0
+   | "utc" => decide (-200000 ≤ c.year ∧ c.year ≤ 200000) && off == 0
+   | _ => false)
+
+def handleCal (kind : String) (a : List String) (impl : String) : String :=
+  match mkCivil a with
+  | none => badReq "calendar"
+  | some (c, off) =>
+    if kind != "ymd" && kind != "rfc" && kind != "utc" then badReq "kind" else
+    if hv : c.frac < 2000000000 then
+      let d := ofCivil c off hv
+      let core := civilCore kind c off
+      let m := if !core then (if impl == "unrepresentable" then "unrepresentable" else "*")
+        else (fromChronoDT d).wire
+      let v := if !decide c.valid then (if impl == "panic" then "fails:panic" else "dontcare")
+        else if d.isLeap then judgeLeap d.secs impl else judge d.secs impl
+      let label := if impl == "unrepresentable" then "unrepresentable"
+        else "cal-" ++ kind ++ ":" ++ offClass "fix" off ++ ":" ++ region d.secs ++ ":" ++ (if d.isLeap then "leap" else subsec c.frac)
+      answer m v label
+    else badReq "frac"
+
 def handle (op : String) (args : List String) (impl : String) : String :=
   match op, args with
+  | "tscal20", kind :: rest => handleCal kind rest impl
+  | "tsst20", [zone, s, n] =>
+    if zone == "utc" then handleOne "stutc" s n "0" impl else if zone == "loc" then handleOne "stloc" s n "0" impl else badReq "zone"
+  | "tsloc20", [tzh, off, s, n] =>
+    match mkInstant s n, codePointsOfHex tzh with
+    | some t, some tz =>
+      let cls := tzClass (stringOfCodePoints tz)
+      let label := if impl == "unrepresentable" then "unrepresentable" else "loc-" ++ cls ++ ":" ++ region t.secs ++ ":" ++ subsec t.nanos
+      answer (modelObs (.chrono ⟨t, off.toInt?.getD 0⟩) impl) (if impl == "tzignored" then "dontcare" else judge t.secs impl) label
+    | _, _ => badReq "instant"
+  | "tsnow20", [] =>
+    -- `now clock` for a clock inside 1970..2106 (`now_total_iff`): the value of the clock's second
+    answer "in" (if impl == "in" then "holds" else if impl == "panic" then "fails:panic" else "fails:now-wrong") "now"
   | "tssys", [s, n] => handleOne "sys" s n "0" impl
   -- the modification time of a source file handed to `PackageBuilder::with_file`: the same SystemTime conversion, reached
   -- through the builder (src/rpm/builder.rs `modified()?.try_into()?`)
@@ -105,17 +170,18 @@ def handle (op : String) (args : List String) (impl : String) : String :=
     | _, _ => badReq "instant"
   | "tsleap", [kind, sS, extra, off] =>
     -- a chrono reading inside a leap second: `timestamp()` is the second it hangs on; whether that instant counts
-    -- as second S or S+1 "since the epoch" the property does not say (dontcare), but it must not panic
+    -- as second S or S+1 "since the epoch" the property does not say inside the range (either answer holds there), at the two
+    -- ends of the range it does (only S); anything else fails (`judgeLeap`)
     match mkInstant sS extra with
     | none => badReq "instant"
     | some t =>
       match mkSource kind t off with
       | none => badReq "source"
       | some src =>
-        let v := if impl == "panic" then "fails:panic" else "dontcare"
-        answer (modelObs src impl) v ("leap:" ++ kind ++ ":" ++ region t.secs)
+        -- `t.nanos` is the part beyond the full second: the stored sub-second field is 10⁹ + that (`ChronoDT`, `ts_leap_reading`)
+        answer (modelObs src impl) (judgeLeap t.secs impl) ("leap:" ++ kind ++ ":" ++ region t.secs)
   | _, _ => badReq "op"
 
-def ops : List String := ["tssys", "tsutc", "tsfix", "tspair", "tsleap", "tsfile"]
+def ops : List String := ["tssys", "tsutc", "tsfix", "tspair", "tsleap", "tsfile", "tscal20", "tsst20", "tsloc20", "tsnow20"]
 
 end RpmVerif.Driver.C20
